@@ -544,16 +544,30 @@ TRICKY = ["S", "S_R", "S_R_up_1", "x_up_y", "x_down", "x_down_y", "tr_a", "tr_a_
           "g", "g_act", "g_act_1", "n_up", "vdown_1", "b0_x", "b1_x", "k_up_k", "A_", "A__1"]
 
 
+def tricky_names(rng, k):
+    """`k` distinct names, most of them prefix-related within one or two families, with the fragments the
+    Petri-net encoding uses in its own identifiers"""
+    out = []
+    while len(out) < k:
+        base = rng.choice(["S", "EGF", "g", "x", "tr_a", "p", "n", "b0", "b1", "sw"])
+        fam = [base]
+        for _ in range(rng.randint(1, 4)):
+            cand = rng.choice(fam) + rng.choice(["_R", "_up", "_up_1", "_down", "_down_1", "_act", "_1", "_", "_up_clk", "_b0", "_b1_x", "_tr"])
+            if cand not in fam:
+                fam.append(cand)
+        for x in fam:
+            if x not in out and len(out) < k:
+                out.append(x)
+    rng.shuffle(out)
+    return out
+
+
 def mangle_names(rng, bnet: str) -> str:
     """the same network with variable names that are prefixes of each other or contain the fragments the
     Petri-net encoding uses in its own identifiers (`tr_`, `_up_`, `_down_`, `b0_`, `b1_`)"""
     rows = [l.split(",", 1) for l in bnet.split("\n") if "," in l]
     names = sorted({t for _, e in rows for t in re.findall(r"[A-Za-z_][A-Za-z0-9_]*", e) if t not in ("true", "false")} | {a.strip() for a, _ in rows})
-    pool = TRICKY[:]
-    rng.shuffle(pool)
-    if len(names) > len(pool):
-        return bnet
-    m = dict(zip(names, pool))
+    m = dict(zip(names, tricky_names(rng, len(names))))
     sub = lambda txt: re.sub(r"[A-Za-z_][A-Za-z0-9_]*", lambda t: m.get(t.group(0), t.group(0)), txt)
     return "\n".join(f"{m[a.strip()]}, {sub(e.strip())}" for a, e in rows)
 
